@@ -61,7 +61,7 @@ def rule_b1(ctx: Ctx) -> None:
     repo = ctx.repo
     biv = repo.cls("BivincularPatt")
     if "MeshPatt" not in [c.name for c in repo.mro("BivincularPatt")]:
-        ctx.violation("C03-B1", biv.where, biv.node, "BivincularPatt is no longer a MeshPatt: its occurrences are not those of a mesh pattern by construction", file=biv.module.relpath)
+        ctx.violation("C03-B1", biv.where, biv.node, "BivincularPatt is no longer a MeshPatt: its occurrences are not those of a mesh pattern by construction", file=biv.module.relpath, robust=True)
         return
     occ = biv.methods.get("occurrences_in")
     if occ is None:
@@ -77,13 +77,13 @@ def rule_b1(ctx: Ctx) -> None:
         if good and len(rets) == 1 and not other_exits:
             ctx.ok("C03-B1", occ.where, "delegates to super().occurrences_in(patt, ...) with the target unchanged", rets[0], occ)
         else:
-            ctx.violation("C03-B1", occ, occ.node, "BivincularPatt.occurrences_in does not simply delegate to the inherited mesh search with the target unchanged: a private search could disagree with the mesh pattern it stands for")
+            ctx.violation("C03-B1", occ, occ.node, "BivincularPatt.occurrences_in does not simply delegate to the inherited mesh search with the target unchanged: a private search could disagree with the mesh pattern it stands for", robust=True)
     for cname in ("BivincularPatt", "VincularPatt", "CovincularPatt"):
         ci = repo.cls(cname)
         over = [m for m in SEARCH_METHODS if m in ci.methods and not (cname == "BivincularPatt" and m == "occurrences_in")]
         if over:
             f = ci.methods[over[0]]
-            ctx.violation("C03-B1", f, f.node, f"{cname} overrides {over}: its containment no longer follows from the inherited mesh-pattern search")
+            ctx.violation("C03-B1", f, f.node, f"{cname} overrides {over}: its containment no longer follows from the inherited mesh-pattern search", robust=True)
         else:
             ctx.ok("C03-B1", ci.where, "overrides none of the search / containment methods")
 
@@ -262,7 +262,7 @@ def rule_b4(ctx: Ctx) -> None:
     if tp == "T" and tm == "F":
         ctx.ok("C03-B4", f_disp.where, "Perm targets -> permutation search, every other admissible target -> mesh search", node, f_disp)
     elif tp == "F" and tm == "T":
-        ctx.violation("C03-B4", f_disp, node, "dispatch sends Perm targets to `_occurrences_in_mesh` and other targets to `_occurrences_in_perm`; expected _occurrences_in_perm / _occurrences_in_mesh")
+        ctx.violation("C03-B4", f_disp, node, "dispatch sends Perm targets to `_occurrences_in_mesh` and other targets to `_occurrences_in_perm`; expected _occurrences_in_perm / _occurrences_in_mesh", robust=True)
     else:
         raise AnalysisError(f"{f.where}: dispatch on the kind of target not recognised (perm search under {tp}, mesh search under {tm})")
     # an assertion on the target that comes before the dispatch restricts both branches
@@ -280,9 +280,9 @@ def rule_b4(ctx: Ctx) -> None:
         elif "MeshPatt" in mro:
             ctx.ok("C03-B4", repo.cls(c).where, "concrete pattern class handled by the mesh branch")
         else:
-            ctx.violation("C03-B4", repo.cls(c).where, repo.cls(c).node, f"pattern class {c} is neither a Perm nor a MeshPatt: MeshPatt.occurrences_in would treat it as a mesh pattern", file=repo.cls(c).module.relpath)
+            ctx.violation("C03-B4", repo.cls(c).where, repo.cls(c).node, f"pattern class {c} is neither a Perm nor a MeshPatt: MeshPatt.occurrences_in would treat it as a mesh pattern", file=repo.cls(c).module.relpath, robust=True)
     if admissible is not None and not (admissible >= {"Perm", "MeshPatt"} or "Patt" in admissible):
-        ctx.violation("C03-B4", f, asserts[0], f"admissible targets {sorted(admissible)} exclude Perm or MeshPatt before the dispatch")
+        ctx.violation("C03-B4", f, asserts[0], f"admissible targets {sorted(admissible)} exclude Perm or MeshPatt before the dispatch", robust=True)
 
 
 def rule_b5(ctx: Ctx) -> None:
